@@ -130,6 +130,43 @@ def show_oc(spec): return f'{cm.show(spec[0])} openContent {spec[1]} ({spec[2]})
 _TIER = ['quick']
 
 
+def eval_wild_subst(args):
+    """XSD 1.1: a wildcard that precedes a reference to the head of a substitution group and admits a MEMBER's name (not the head's): the member in place of the head is
+    attributed to the head particle (element particles win over the wildcard), so extra* followed by the head or by a member is a word of the model.  Judged on the words
+    where the greedy and the language reading agree: one head-or-member occurrence, in last position."""
+    variant, shape = args
+    import xmlschema
+    T = 'urn:t'
+    if variant == 'notQName': wc = '<xs:any notQName="t:head" processContents="lax" minOccurs="0" maxOccurs="unbounded"/>'; member_ns = T; imp = ''; extra_decl = '<xs:element name="member" type="xs:int" substitutionGroup="t:head"/>'
+    else: wc = '<xs:any namespace="##other" processContents="lax" minOccurs="0" maxOccurs="unbounded"/>'; member_ns = 'urn:m'; imp = '<xs:import namespace="urn:m"/>'; extra_decl = ''
+    body = {'seq': f'<xs:sequence>{wc}<xs:element ref="t:head"/></xs:sequence>', 'nested': f'<xs:sequence><xs:sequence>{wc}</xs:sequence><xs:element ref="t:head"/></xs:sequence>'}[shape]
+    main = (f'<xs:schema xmlns:xs="http://www.w3.org/2001/XMLSchema" targetNamespace="{T}" xmlns:t="{T}" elementFormDefault="qualified">{imp}<xs:element name="head" type="xs:decimal"/>{extra_decl}'
+            f'<xs:element name="root"><xs:complexType>{body}</xs:complexType></xs:element></xs:schema>')
+    srcs = [main]
+    if variant != 'notQName':
+        srcs.append(f'<xs:schema xmlns:xs="http://www.w3.org/2001/XMLSchema" targetNamespace="urn:m" xmlns:t="{T}"><xs:import namespace="{T}"/><xs:element name="member" type="xs:int" substitutionGroup="t:head"/></xs:schema>')
+    s = xmlschema.XMLSchema11(srcs if len(srcs) > 1 else main)
+    el = {'h': '<t:head>1.5</t:head>', 'm': f'<m:member xmlns:m="{member_ns}">7</m:member>', 'x': '<o:extra xmlns:o="urn:o"/>'}
+    bad = []; n = 0
+    import itertools
+    for k in range(0, 4):
+        for w in itertools.product('hmx', repeat=k):
+            hm = [c for c in w if c in 'hm']
+            if len(hm) > 1 or (hm and w[-1] not in 'hm'): continue       # (more than one, or followed by something: the two readings of the priority rule differ or both reject - left to the competition family)
+            n += 1; exp = len(hm) == 1
+            doc = f'<t:root xmlns:t="{T}">' + ''.join(el[c] for c in w) + '</t:root>'
+            try: got = s.is_valid(doc)
+            except Exception as e: got = 'raised ' + type(e).__name__
+            if got != exp: bad.append((''.join(w), got, exp))
+    return dict(args=list(args), cases=n, bad=bad)
+
+
+def check_wild_subst():
+    res = [eval_wild_subst((v, sh)) for v in ('notQName', 'other-namespace') for sh in ('seq', 'nested')]
+    return result('C01.xsd11_wildcard_before_a_substitution_head', '4 XSD 1.1 models: a repeating wildcard that admits the name of a substitution member (by notQName of the head / by ##other with the member in another namespace) before a reference to the head, flat and nested x words <= 3 over head / member / extra',
+                  sum(r['cases'] for r in res), [dict(case=dict(xsd11=True, wild_subst=r['args'], word=b[0]), observed=dict(valid=b[1]), required=dict(valid=b[2])) for r in res for b in r['bad']], exhaustive=True)
+
+
 def run(tier, seed, open_findings):
     _TIER[0] = tier
     out = []
@@ -153,6 +190,7 @@ def run(tier, seed, open_findings):
         fails.append(dict(case=dict(xsd11='open', spec=r['spec']), model=key, observed=dict(mismatches=r['mismatches'][:6]), required='is_valid(doc(w)) <=> w splits into a word of the model and children admitted by the open content wildcard (anywhere / as a suffix)'))
     out.append(result('C01.xsd11_open_content', f'{len(models)} (model, mode, local / default / default with appliesToEmpty) with a ##other open content wildcard x {len(WORDS5)} words, XMLSchema11',
                       len(models) * len(WORDS5), fails, exhaustive=True, known=({K2: nk} if nk else {}), samples=[dict(model='(a,b?,c{1,2}) interleave', word='xaxcx')], distinct=len(models)))
+    out.append(check_wild_subst())
     return out
 
 
@@ -162,6 +200,8 @@ def _t(m):
 
 
 def replay(check_name, case):
+    if case.get('wild_subst'):
+        r = eval_wild_subst(tuple(case['wild_subst'])); mine = [b for b in r['bad'] if b[0] == case['word']]; return dict(ok=not mine, observed=mine[:1], required='extra* then the head or a member')
     if case['xsd11'] == 'all':
         sp = case['spec']; spec = (tuple(sp[0]), tuple(sp[1]), tuple(sp[2]) if sp[2] else None, tuple(sp[3]))
         r = all_eval(spec)
